@@ -80,6 +80,8 @@ class StandardObserver:
         self.ns = None
         self.t_loop = None
         self.pending_finalise = None
+        self.in_consume = False
+        self.kill_after_mid_ckpt = False
         self.cond_by_it = {}     # iteration -> condition value compared by the loop guard
         self.ckpt_entry = None
         self.ckpt_wrote = False
@@ -185,7 +187,11 @@ class StandardObserver:
             it0 = int(ns.iteration)
             tol = float(ns.tolerance)
             cond_before = float(ns.condition)
-            r = orig_consume(ns)
+            obs.in_consume = True
+            try:
+                r = orig_consume(ns)
+            finally:
+                obs.in_consume = False
             obs.emit_iter(ns, it0, cond_before, tol)
             return r
 
@@ -298,8 +304,12 @@ class StandardObserver:
             r = orig_dump(obj, filename, *a, **k)
             obs.ckpt_wrote = True
             if obs.ns is not None and obj is obs.ns:
-                obs.em.emit("ckpt", digest=obs.deep_digest(obj), live=obs.live_state(obj),
+                mid = bool(getattr(obs, "in_consume", False))
+                obs.em.emit("ckpt", digest=obs.deep_digest(obj), live=obs.live_state(obj), mid=mid,
                             **obs.tails(obj), **obs.counts(obj))
+                if mid and obs.kill_after_mid_ckpt:
+                    obs.em.emit("kill", evals_here=obs.evals_here, evals=int(obs.model.likelihood_evaluations))
+                    os._exit(137)
             return r
 
         sbase.safe_file_dump = safe_file_dump
